@@ -40,7 +40,7 @@ CYCLES = {
 }
 # counters that must not grow at all between N1 and N2 cycles, and those with a constant allowance
 STRICT = ["fds", "children", "zombies", "threads", "roots", "listeners", "timers", "threaded-abstracts", "active-tasks"]
-LOOSE = {"blocks": 64, "allocs": 96, "bytes": 96 * 1024}
+LOOSE = {"blocks": 64, "allocs": 96}
 
 
 class C20(Driver):
@@ -198,7 +198,7 @@ class C20(Driver):
                 for k, slack in LOOSE.items():
                     grow = b.get(k, 0) - a.get(k, 0)
                     per = grow / float(plan["n2"] - plan["n1"])
-                    if grow > slack and per >= 0.5 * (1 if k != "bytes" else 16):
+                    if grow > slack and per >= 0.5:
                         V("C20/steady-state/%s-grow-with-repetitions/cycle=%s" % (k, tag),
                           "%s: %d after %d cycles, %d after %d cycles (%.2f per cycle)" % (k, a.get(k, 0), plan["n1"], b.get(k, 0), plan["n2"], per))
             elif not vs:
